@@ -161,7 +161,47 @@ def gen_cycle(rng):
     return d, files
 
 
+def gen_cfg_macro(rng):
+    """a tiny root file around one `cfg_if!` / `cfg_match!` call (the two macros whose bodies the module resolver parses
+    itself), damaged at token level.  Tiny means: a process that has not finished within the cap is not slow, it hangs"""
+    items = ["mod ta;", "mod tb;", "fn f() {}", "use a::b;", "pub mod tc;", '#[path = "ta.rs"] mod td;', "struct S;",
+             "mod inl { mod ta; }", "const X: u8 = 1;"]
+
+    def block():
+        return "{\n        " + "\n        ".join(rng.choice(items) for _ in range(rng.range(0, 3))) + "\n    }"
+    conds = ["unix", "windows", 'feature = "x"', 'target_os = "linux"', "test"]
+    if rng.chance(60):
+        s = "%s! {\n    if #[cfg(%s)] %s" % (rng.choice(["cfg_if::cfg_if", "cfg_if"]), rng.choice(conds), block())
+        for _ in range(rng.below(3)):
+            s += " else if #[cfg(%s)] %s" % (rng.choice(conds), block())
+        if rng.chance(70):
+            s += " else %s" % block()
+        s += "\n}\n"
+    else:
+        s = "%s! {\n" % rng.choice(["std::cfg_match", "cfg_match"])
+        for _ in range(rng.range(1, 3)):
+            c = rng.choice(conds)
+            s += "    %s => %s\n" % (rng.choice([c, "cfg(%s)" % c]), block())
+        if rng.chance(70):
+            s += "    _ => %s\n" % block()
+        s += "}\n"
+    text = rng.choice(["", "fn  before( ){ }\n"]) + s + rng.choice(["", "fn  after( ){ }\n"])
+    text, desc = rustlex.mutate(rng, text, rng.range(0, 2))
+    if rng.chance(50):
+        # a stray token that cannot start an item, at a token boundary
+        toks = rustlex.tokens(text)
+        k = rng.below(len(toks) + 1)
+        toks.insert(k, ("punct", " %s " % rng.choice(["1", "+", ";", '"s"', "=>", "'a'", "..", "0.5", "?", "@"])))
+        text = "".join(t for _, t in toks)
+        desc = desc + ["stray-token"]
+    return text, desc
+
+
 def generate(rng, tier):
+    if rng.chance(4):
+        text, desc = gen_cfg_macro(rng)
+        return {"lane": "T", "text": text, "mutations": desc, "emit": rng.choice([[], ["--check"], ["--emit", "stdout"]]),
+                "hashseed": rng.below(1 << 32)}
     lane = "C" if rng.chance(12) else ("G" if rng.chance(10) else ("D" if rng.chance(6) else ("Y" if rng.chance(3) else "B")))
     if lane == "B" and rng.chance(4):
         # several inputs on one command line, some from the same directory, with per-directory configurations some of
@@ -267,6 +307,23 @@ def execute(case):
     with core.Scratch() as sc:
         if case["lane"] == "C":
             return _lane_c(case, v, sc)
+        if case["lane"] == "T":
+            files = {"w/main.rs": case["text"]}
+            for m in ("ta", "tb", "tc"):
+                files["w/%s.rs" % m] = gen_rust.tiny_unformatted(m)
+            sc.fresh_world({"files": files})
+            res = core.run_inv(sc, {"argv": list(case["emit"]) + ["main.rs"], "cwd": "w", "hashseed": case["hashseed"]})
+            v.account(res)
+            if res.timed_out:
+                v.inconclusive = max(0, v.inconclusive - 1)
+                v.add("C16:no-result|tiny-input", "a %d-byte root file around a cfg_if!/cfg_match! call (mutations %s): no result after %.0f s; text=%r" % (
+                    len(case["text"]), case["mutations"], core.PROC_TIMEOUT, case["text"][:300]))
+            ab = core.abnormal(res)
+            if ab:
+                v.add("C16:%s|cfg-macro" % ab, "text=%r status=%s stderr=%r" % (case["text"][:300], res.status(), core.text_of(res.stderr)[-300:]))
+            v.probe("cfg-macro-grammar")
+            v.sample = v.sample or {"lane": "T", "status": res.status()}
+            return v
         if case["lane"] == "M":
             sc.fresh_world({"files": case["files"]})
             res = core.run_inv(sc, {"argv": list(case["emit"]) + list(case["args"]), "hashseed": case["hashseed"], "plan": case["plan"]})
